@@ -256,6 +256,12 @@ func (v *FnV) exitClauses() []*Clause {
 		cl.Expr, cl.Text = e, r
 		out = append(out, cl)
 	}
+	// a literal's closure invariant must hold again at each of its returns
+	for _, cl := range v.maintainsClauses(v.fc) {
+		c2 := *cl
+		c2.Label = "maintains:" + cl.Label
+		out = append(out, &c2)
+	}
 	return out
 }
 
@@ -394,6 +400,7 @@ func (v *FnV) havocCaptured(st *State, a Value) bool {
 	if !ok {
 		return false
 	}
+	v.closureInvariant(st, a, "before")
 	for _, obj := range capturedAssigned(cr.lit, cr.frame.pkg.TypesInfo) {
 		if v.boxed[obj] {
 			continue
@@ -402,6 +409,7 @@ func (v *FnV) havocCaptured(st *State, a Value) bool {
 			st.env[obj] = st.freshVal(obj.Name(), cur.T)
 		}
 	}
+	v.closureInvariant(st, a, "after")
 	return true
 }
 
@@ -425,7 +433,13 @@ func (v *FnV) loopMayLog(nodes []ast.Node) bool {
 				return true
 			}
 			if id, ok := unparen(call.Fun).(*ast.Ident); ok {
-				if _, ok := info.Uses[id].(*types.Builtin); ok {
+				if b, ok := info.Uses[id].(*types.Builtin); ok {
+					if b.Name() == "append" && len(call.Args) > 0 {
+						if a0, ok := unparen(call.Args[0]).(*ast.Ident); ok && v.logKind("append:"+a0.Name) >= 0 {
+							may = true
+							return false
+						}
+					}
 					return true
 				}
 			}
